@@ -16,7 +16,7 @@
 
 
 double _vertex_current_flow_betweenness_fast(int N, double Is, double It,
-    float *admittance, float *R, int i) {
+    double *admittance, double *R, int i) {
 
     double VCFB=0.0;
     int t=0;
@@ -47,7 +47,7 @@ double _vertex_current_flow_betweenness_fast(int N, double Is, double It,
 
 
 void _edge_current_flow_betweenness_fast(int N, double Is, double It, 
-    float *admittance, float *R, float *ECFB) {
+    double *admittance, double *R, float *ECFB) {
 
     int i=0;
     int j=0;
